@@ -1,7 +1,7 @@
 (* Props/C09.v — the property theorems for C09 (genomic arrays are exact, lossless views of dense
    per-base arrays).  Only statements, `exact <lemma>` and Print Assumptions live here. *)
 From Coq Require Import ZArith List Bool.
-From BNP Require Import Base.Prims Model.C09 Proofs.C09 Gen.C09 Bridge.C09.
+From BNP Require Import Base.Prims Model.C09 Proofs.C09 Proofs.C09_depth Proofs.C09_genome Gen.C09 Bridge.C09.
 Import ListNotations.
 Open Scope Z_scope.
 
@@ -143,6 +143,135 @@ Theorem C09_sum_int_partial : forall r, wf_rle r = true -> (forall v, In v (snd 
   model_sum r = vsum (expand r).
 Proof. exact sum_int_partial. Qed.
 Print Assumptions C09_sum_int_partial.
+
+(* ====================================================================================== *)
+(* Phase 3: genome level, converse, repaired from_intervals, get_mask end to end            *)
+(* ====================================================================================== *)
+
+(* G1: Genome.get_track(bedGraph).to_dict().  For every genome of positive chromosome sizes and every non-empty list
+   of local records in genome order (chromosome index non-decreasing; inside a chromosome sorted, non-overlapping,
+   touching allowed; every record non-empty and inside its chromosome): the coordinate shift succeeds, from_bedgraph
+   succeeds on the global records, and the per-chromosome arrays are exactly the dense arrays the records of that
+   chromosome describe, zero in gaps — 1..n chromosomes, records ending at a chromosome end next to records starting
+   at 0 of the next one included. *)
+Theorem C09_track_genome : forall ak k sizes recs,
+  all_pos sizes = true -> recs <> [] -> grecs_valid sizes 0 0 recs = true ->
+  exists g r k', to_global sizes recs = Some g
+    /\ from_bedgraph_gen ak k g (total_size sizes) = Some (k', r)
+    /\ wf_rle r = true /\ rle_len r = total_size sizes
+    /\ model_to_dict sizes r = spec_track vzero sizes recs.
+Proof. exact track_genome. Qed.
+Print Assumptions C09_track_genome.
+Theorem C09_track_genome_empty : forall ak k sizes, all_pos sizes = true -> sizes <> [] ->
+  exists r, to_global sizes [] = Some [] /\ from_bedgraph_gen ak k [] (total_size sizes) = Some (KI, r)
+    /\ model_to_dict sizes r = spec_track vzero sizes [].
+Proof. exact track_genome_empty. Qed.
+Print Assumptions C09_track_genome_empty.
+
+(* G2: get_data() over the whole genome: the rows come in genome order, per chromosome they are in order,
+   non-overlapping and inside the chromosome, and expanding them (zero / False in gaps) gives exactly to_dict(). *)
+Theorem C09_get_data_genome : forall sizes k r,
+  wf_rle r = true -> all_pos sizes = true -> rle_len r = total_size sizes -> (k = KB -> bool_valued r) ->
+  let recs := model_get_data sizes k r in
+  chroms_sorted recs = true
+  /\ (forall c, 0 <= c < len sizes ->
+        sorted_disjoint 0 (on_chrom c recs) = true /\ all_le (nthZ sizes c) (on_chrom c recs) = true)
+  /\ spec_track vzero sizes recs = model_to_dict sizes r.
+Proof. exact get_data_genome. Qed.
+Print Assumptions C09_get_data_genome.
+
+(* G3: coordinate statement for masks and pileups: an array that expands to "some interval covers" / "number of covering
+   intervals" on the flat genome axis has, per chromosome, exactly that chromosome's mask / pileup. *)
+Theorem C09_mask_genome : forall sizes recs r,
+  all_pos sizes = true -> (forall x, In x recs -> rec_in sizes x) ->
+  wf_rle r = true -> rle_len r = total_size sizes -> expand r = tabulate (any_at (glob sizes recs)) 0 (total_size sizes) ->
+  model_to_dict sizes r = spec_mask sizes recs.
+Proof. exact mask_genome. Qed.
+Print Assumptions C09_mask_genome.
+Theorem C09_pileup_genome : forall sizes recs r,
+  all_pos sizes = true -> (forall x, In x recs -> rec_in sizes x) ->
+  wf_rle r = true -> rle_len r = total_size sizes -> expand r = tabulate (count_at (glob sizes recs)) 0 (total_size sizes) ->
+  model_to_dict sizes r = spec_pileup sizes recs.
+Proof. exact pileup_genome. Qed.
+Print Assumptions C09_pileup_genome.
+
+(* G4: get_mask end to end, intervals in any order on any chromosomes.  The merge step is a hypothesis in the words of
+   C08_merge_relational (distance 0) / C08_mask_is_positive_coverage: the sorted, merged, non-empty intervals m are in
+   order, non-overlapping, inside the genome and cover exactly the covered bases.  Then the shift succeeds,
+   get_boolean_mask succeeds and to_dict() is the per-chromosome mask. *)
+Theorem C09_mask_end_to_end_partial : forall sizes recs,
+  all_pos sizes = true -> sizes <> [] -> (forall r, In r recs -> iv_in sizes r) ->
+  let g := glob sizes recs in
+  let m := filter (fun '(s, e) => negb (s =? e)) (merge_sorted (sort_by_start g)) in
+  sorted_disjoint 0 (iv_recs vone m) = true -> all_le (total_size sizes) (iv_recs vone m) = true ->
+  (forall p, any_at (iv_recs vone m) p = any_at g p) ->
+  exists r, to_global sizes recs = Some g /\ boolean_mask g (total_size sizes) = Some (KB, r)
+            /\ model_to_dict sizes r = spec_mask sizes recs.
+Proof. exact mask_genome_full. Qed.
+Print Assumptions C09_mask_end_to_end_partial.
+
+(* E: converse of C09_expression_pointwise_partial — whenever the dense (NumPy) evaluation of a tree is defined, the
+   run-length evaluation is defined, has the same dtype kind, is well-formed and expands to the dense result.  Together:
+   the two evaluations are defined on exactly the same trees and agree. *)
+Theorem C09_expression_complete_partial : forall n leaves e k d,
+  (forall l, In l leaves -> wf_rle (snd l) = true /\ rle_len (snd l) = n) ->
+  spec_eval (map dense_leaf leaves) e = Some (k, d) ->
+  exists r, model_eval leaves e = Some (k, r) /\ wf_rle r = true /\ rle_len r = n /\ expand r = d.
+Proof. exact eval_complete. Qed.
+Print Assumptions C09_expression_complete_partial.
+
+(* F: from_intervals as it is in /repo now (empty runs removed before the constructor): every sorted, non-overlapping
+   list of non-empty intervals inside [0, size] — touching intervals included, first one at 0 or later, last one at size
+   or earlier, or none — with a scalar value ... *)
+Theorem C09_from_intervals_scalar_full : forall ivs size k value default,
+  0 < size -> sorted_disjoint 0 ivs = true -> all_le size ivs = true -> (forall r, In r ivs -> vl r = value) ->
+  exists r, from_intervals_scalar_gen clean_fixed (map st ivs) (map en ivs) size k value default = Some (k, r)
+    /\ wf_rle r = true /\ rle_len r = size /\ expand r = dense_of (cast_to k default) ivs size.
+Proof. exact from_intervals_scalar_full. Qed.
+Print Assumptions C09_from_intervals_scalar_full.
+(* ... and with per-interval values (the path that raised before notes/C09.fix-2.diff). *)
+Theorem C09_from_intervals_array_full : forall ivs size k default,
+  0 < size -> sorted_disjoint 0 ivs = true -> all_le size ivs = true ->
+  exists r, from_intervals_array_fixed clean_fixed (map st ivs) (map en ivs) size k (map vl ivs) default = Some (k, r)
+    /\ wf_rle r = true /\ rle_len r = size /\ expand r = dense_of (cast_to k default) ivs size.
+Proof. exact from_intervals_array_full. Qed.
+Print Assumptions C09_from_intervals_array_full.
+
+(* non-vacuity of the genome-level hypotheses: three chromosomes (3, 2, 4); a record ending at the end of chromosome 0
+   next to one starting at 0 of chromosome 1, touching records, a gap, nothing on the last bases; the executable model
+   gives the per-chromosome arrays and get_data reads them back *)
+Example C09_nonvacuous_genome :
+  let sizes := [3; 2; 4] in
+  let recs := [(0, 1, 3, (5, 0)); (1, 0, 1, (7, 0)); (1, 1, 2, (7, 0)); (2, 1, 2, (1, 1))] in
+  all_pos sizes = true /\ grecs_valid sizes 0 0 recs = true
+  /\ match to_global sizes recs with
+     | Some g => match from_bedgraph KF g (total_size sizes) with
+                 | Some (k, r) => model_to_dict sizes r = spec_track vzero sizes recs
+                                  /\ spec_track vzero sizes (model_get_data sizes k r) = model_to_dict sizes r
+                                  /\ model_to_dict sizes r = [[(0,0); (5,0); (5,0)]; [(7,0); (7,0)]; [(0,0); (1,1); (0,0); (0,0)]]
+                 | None => False end
+     | None => False end.
+Proof. vm_compute. repeat split; reflexivity. Qed.
+(* non-vacuity of the merge hypotheses of G4: unsorted, overlapping intervals, one pair touching across the boundary *)
+Example C09_nonvacuous_mask_genome :
+  let sizes := [5; 3] in
+  let recs := [(1, 0, 1, vone); (0, 3, 5, vone); (0, 1, 4, vone)] in
+  let g := glob sizes recs in
+  let m := filter (fun '(s, e) => negb (s =? e)) (merge_sorted (sort_by_start g)) in
+  sorted_disjoint 0 (iv_recs vone m) = true /\ all_le (total_size sizes) (iv_recs vone m) = true
+  /\ tabulate (any_at (iv_recs vone m)) (-2) 12 = tabulate (any_at g) (-2) 12
+  /\ match boolean_mask g (total_size sizes) with
+     | Some (_, r) => model_to_dict sizes r = spec_mask sizes recs
+     | None => False end.
+Proof. vm_compute. repeat split; reflexivity. Qed.
+(* touching intervals and per-interval values through the constructor in force *)
+Example C09_nonvacuous_from_intervals :
+  let ivs := [(0, 2, (3, 0)); (2, 4, (5, 0)); (5, 6, (1, 1))] in
+  sorted_disjoint 0 ivs = true /\ all_le 7 ivs = true
+  /\ match from_intervals_array (map st ivs) (map en ivs) 7 KF (map vl ivs) (9, 0) with
+     | Some (_, r) => to_array r = [(3,0); (3,0); (5,0); (5,0); (9,0); (1,1); (9,0)]
+     | None => False end.
+Proof. vm_compute. repeat split; reflexivity. Qed.
 
 (* Source tie: the comparisons, branch tests, appended / inserted elements, slot and offset formulas regenerated
    from /repo on this run (Gen/C09.v, written by translate/gen_c09.py from arithmetics/intervals.py from_bedgraph /
